@@ -14,7 +14,7 @@ TRACE = bool(os.environ.get('TRACE'))
 
 
 class Frame:
-    __slots__ = ('fn', 'L', 'ci')
+    __slots__ = ('fn', 'L', 'ci', 'site')
 
     def __init__(self, fn, L, ci):
         self.fn = fn
@@ -265,13 +265,15 @@ class Engine:
         if len(args) != len(fn.params):
             raise ModelGap(f'arity mismatch calling {fn.name}: {len(args)} vs {len(fn.params)}')
         fr = Frame(fn, L, ci)
+        fr.site = None
         bb = 0
         while True:
-            for st in blocks[bb]:
+            for si, st in enumerate(blocks[bb]):
                 k = st[0]
                 if k == 'nop':
                     continue
                 self.steps += 1
+                fr.site = (bb, si)
                 if k == 'assign':
                     v = self.rvalue(fr, st[2])
                     if st[2][0] == 'discr' and st[1][0] == 'local':
@@ -476,7 +478,14 @@ class Engine:
             if len(cands) == 1:
                 body = cands[0]
             elif len(cands) > 1:
-                raise ModelGap('ambiguous closure ' + ty + ' in ' + fr.fn.name)
+                # the same macro expanded several times in one function: all closures share a span.
+                # Pair the textual occurrences (block order) with the closure numbers (source order).
+                sites = sorted((b, i) for b, sts in fr.fn.raw_blocks.items() for i, t in enumerate(sts) if ty in t)
+                cands.sort(key=lambda f: int(f.name[len(pre):].rstrip('}')))
+                if len(sites) == len(cands) and fr.site in sites:
+                    body = cands[sites.index(fr.site)]
+                else:
+                    raise ModelGap('ambiguous closure ' + ty + ' in ' + fr.fn.name)
         if body is None:
             body = self.prog.closures.get(ty)
         if body is None:
